@@ -207,7 +207,8 @@ def _history(case, ctx, g):
         try:
             out = H.apply_op(case["family"], m, op, state)
         except Exception as e:
-            del ctx._fail[mark:]
+            if degenerate():
+                del ctx._fail[mark:]
             ctx.reject(f"operation raised: {case['family']}:{op}: {type(e).__name__}")
             return
         if len(ctx._fail) > mark and any("non-finite" in f_.get("detail", "") for f_ in ctx._fail[mark:]) and degenerate():
